@@ -383,3 +383,58 @@ func (tu *TU) FieldByMember(recType string, memberID, name string) (*Field, *Rec
 	}
 	return nil, r
 }
+
+// Macros returns the object-like macros of the unit whose replacement is a single integer literal
+// (clang -dM -E), by name.
+func (tu *TU) Macros() (map[string]int64, error) {
+	raw, err := runClang(append(clangArgs(tu.Repo)[:len(clangArgs(tu.Repo))-1], "-dM", "-E", tu.Path))
+	if err != nil {
+		return nil, err
+	}
+	out := map[string]int64{}
+	for _, line := range strings.Split(string(raw), "\n") {
+		f := strings.Fields(line)
+		if len(f) != 3 || f[0] != "#define" || strings.Contains(f[1], "(") {
+			continue
+		}
+		v := strings.Trim(f[2], "()")
+		v = strings.TrimRight(v, "uUlL")
+		n, err := strconv.ParseInt(v, 0, 64)
+		if err != nil {
+			if u, err2 := strconv.ParseUint(v, 0, 64); err2 == nil {
+				n = int64(u)
+			} else {
+				continue
+			}
+		}
+		out[f[1]] = n
+	}
+	return out, nil
+}
+
+// EnumConsts returns the enumerators declared in repository files with their values.
+func (tu *TU) EnumConsts() map[string]int64 {
+	out := map[string]int64{}
+	for _, d := range tu.Root.Inner {
+		if d.Kind != "EnumDecl" || !tu.InRepo(d) {
+			continue
+		}
+		prev := int64(-1)
+		for _, c := range d.Inner {
+			if c.Kind != "EnumConstantDecl" {
+				continue
+			}
+			v := prev + 1
+			c.Walk(func(n *Node) bool {
+				if n.Kind == "ConstantExpr" && n.Value != "" {
+					v, _ = strconv.ParseInt(n.Value, 10, 64)
+					return false
+				}
+				return true
+			})
+			out[c.Name] = v
+			prev = v
+		}
+	}
+	return out
+}
